@@ -55,6 +55,10 @@ func plan(n int) []item {
 	for i := 0; i < n/25; i++ {
 		p = append(p, item{"rfault", i})
 	}
+	// pfault stream: the same for the preempt action (>= 2 eligible preemptors)
+	for i := 0; i < n/40; i++ {
+		p = append(p, item{"pfault", i})
+	}
 	return p
 }
 
@@ -201,6 +205,14 @@ func runItems(root *u.Rng, it item) []result {
 		r := root.Fork(uint64(5000000 + it.i))
 		sigs := r.Bool()
 		ps := genReclaimMulti(r, sigs)
+		cfg := genConfig(r, ps.cluster)
+		cfg.Sigs = sigs
+		return rfaultFamily(ps, cfg, "", 6, 3)
+	}
+	if it.stream == "pfault" {
+		r := root.Fork(uint64(6000000 + it.i))
+		sigs := r.Bool()
+		ps := genPreemptFault(r, sigs)
 		cfg := genConfig(r, ps.cluster)
 		cfg.Sigs = sigs
 		return rfaultFamily(ps, cfg, "", 6, 3)
@@ -366,6 +378,6 @@ func Run(dir string, seed uint64, n int, tier string) error {
 		}
 		out.Sample(r.Label)
 	}
-	out.Stats["rule"] = "fixed corpus (replayed refutation witnesses under the configuration that shows them and under the default one, boundary clusters, the mixed-depth queue tree org > dept1 > team1 / org > over-quota-queue in both depth orders, with one and two levels of difference, and the same-depth controls), then three streams from one splitmix64 seed: alloc = cycle.Gen clusters without gpu-memory pods (every third one tight: identical whole-GPU / CPU pods, all pending) with only the allocate action, node order binpack / spread (emulated, dominating) / fixed random permutation, scheduling signatures on/off; prog = interchangeable-class clusters (identical nodes, 1-GPU single-pod jobs, saturated) for reclaim (pending queue within quota, other queues over quota, optionally a protected third queue; three of four reclaim clusters with the leaf queues in a queue tree of MIXED depth re-opened with an arbitrary parent map: one or two top-level queues, each leaf directly under a top-level queue or one or two inner queues deeper, 3-4 levels in all; tree shape same-depth / reclaimer-deeper / victim-deeper one third each (depth of the pending jobs' leaf against the depth of the victims' leaf), the third leaf on a chain of its own or below an inner queue of either chain; quotas at every level: in every second tree each inner queue deserves exactly the sum of the leaf quotas below it, in the others that sum 3/5, one more 1/10, one less 1/10, unlimited 1/5; top-level queues unlimited 2/3 or the sum; the remaining quarter flat under the one department) and preempt (one queue, mixed priorities; every second preempt cluster: two or three leaf queues under one / separate / mixed departments, one pod shape = one scheduling signature in all queues, per queue a role victim = runs a strictly lower-priority preemptible pod / blocked = none, or non-preemptible pending jobs over a zero quota / mixed / idle, queue priorities, creation order, quotas and usage random so that either kind of queue is served first; the pop order of the pending jobs is read off the real JobsOrderByQueues right before the action), consolidation action in between on/off, signatures on (pending jobs of one priority class per queue) / off (mixed); sig = random UpdateRepresentative / IsEasierToSchedule sequences on real pod groups with chain-ordered requests. fault = in-class allocate clusters under every Bind-failure oracle (none / the k-th Bind / every Bind of one job); rfault = reclaim clusters with two or three reclaimer queues within quota (one or two pending unit jobs each) and an over-quota queue whose preemptible unit pods fill 2-3 identical nodes, under every Evict-failure oracle (none / the k-th Evict of the cycle, every position / every Evict requested for one preemptor, the first-served one first); the README worlds of seeded/C05-4 and seeded/C05-5 are in the fixed corpus. Non-trivial = at least one Cache call or one refused attempt; distinct by label."
+	out.Stats["rule"] = "fixed corpus (replayed refutation witnesses under the configuration that shows them and under the default one, boundary clusters, the mixed-depth queue tree org > dept1 > team1 / org > over-quota-queue in both depth orders, with one and two levels of difference, and the same-depth controls), then three streams from one splitmix64 seed: alloc = cycle.Gen clusters without gpu-memory pods (every third one tight: identical whole-GPU / CPU pods, all pending) with only the allocate action, node order binpack / spread (emulated, dominating) / fixed random permutation, scheduling signatures on/off; prog = interchangeable-class clusters (identical nodes, 1-GPU single-pod jobs, saturated) for reclaim (pending queue within quota, other queues over quota, optionally a protected third queue; three of four reclaim clusters with the leaf queues in a queue tree of MIXED depth re-opened with an arbitrary parent map: one or two top-level queues, each leaf directly under a top-level queue or one or two inner queues deeper, 3-4 levels in all; tree shape same-depth / reclaimer-deeper / victim-deeper one third each (depth of the pending jobs' leaf against the depth of the victims' leaf), the third leaf on a chain of its own or below an inner queue of either chain; quotas at every level: in every second tree each inner queue deserves exactly the sum of the leaf quotas below it, in the others that sum 3/5, one more 1/10, one less 1/10, unlimited 1/5; top-level queues unlimited 2/3 or the sum; the remaining quarter flat under the one department) and preempt (one queue, mixed priorities; every second preempt cluster: two or three leaf queues under one / separate / mixed departments, one pod shape = one scheduling signature in all queues, per queue a role victim = runs a strictly lower-priority preemptible pod / blocked = none, or non-preemptible pending jobs over a zero quota / mixed / idle, queue priorities, creation order, quotas and usage random so that either kind of queue is served first; the pop order of the pending jobs is read off the real JobsOrderByQueues right before the action), consolidation action in between on/off, signatures on (pending jobs of one priority class per queue) / off (mixed); sig = random UpdateRepresentative / IsEasierToSchedule sequences on real pod groups with chain-ordered requests. fault = in-class allocate clusters under every Bind-failure oracle (none / the k-th Bind / every Bind of one job); rfault = reclaim clusters with two or three reclaimer queues within quota (one or two pending unit jobs each) and an over-quota queue whose preemptible unit pods fill 2-3 identical nodes, under every Evict-failure oracle (none / the k-th Evict of the cycle, every position / every Evict requested for one preemptor, the first-served one first); pfault = the same oracles on preempt clusters with two or three queues that run preemptible unit pods of priority 25 / 50 on 2-3 identical nodes and hold one or two pending unit jobs of a higher priority each (at least two eligible preemptors), pending jobs in the order the preempt action attempted them; the README worlds of seeded/C05-4 and seeded/C05-5 are in the fixed corpus. Non-trivial = at least one Cache call or one refused attempt; distinct by label."
 	return out.Flush()
 }
